@@ -46,7 +46,7 @@ func main() {
 	rng := vh.NewRNG(*seed)
 	res := vh.NewResult()
 
-	nPoolsA, nDesignsB, nVals := 260, 6, 20
+	nPoolsA, nDesignsB, nVals := 260, 12, 20
 	if *tier == "thorough" {
 		nPoolsA, nDesignsB, nVals = 6200, 100, 20
 	}
@@ -96,7 +96,7 @@ func main() {
 	var infoB []any
 	if runB {
 		var err error
-		casesB, infoB, err = runTierB(*out, *repo, *harnessDir, rng.Fork(), nDesignsB, nVals, res)
+		casesB, infoB, err = runTierB(self, *out, *repo, *harnessDir, rng.Fork(), nDesignsB, nVals, res)
 		if err != nil {
 			panic(err)
 		}
